@@ -454,12 +454,16 @@ func c05Options(c *Ctx) {
 // index 65537) share a key and a lint annotation is attached to, or looked up at, the wrong declaration. Widths
 // come from go/types, not from the text.
 func c05KeyInjective(c *Ctx) {
-	const rule = "KEY-INJECTIVE"
+	ruleKeyInjective(c, "KEY-INJECTIVE", "private/bufpkg/bufprotosource")
+}
+
+// ruleKeyInjective is KEY-INJECTIVE for one package (shared with C18 for the mark-and-sweep location keys).
+func ruleKeyInjective(c *Ctx, rule string, rel string) {
 	c.Rule(rule, "string keys built from integer slices keep every byte of every element", 1)
 	p := c.P
-	pk := p.Pkg("private/bufpkg/bufprotosource")
+	pk := p.Pkg(rel)
 	if pk == nil {
-		c.Fail(rule, "anchor", token.NoPos, "bufprotosource not found")
+		c.Fail(rule, "anchor", token.NoPos, "%s not found", rel)
 		return
 	}
 	info := pk.TypesInfo
